@@ -115,6 +115,26 @@ theorem attachments_written (cpsOf : String → List Nat) (g : List (String × S
   · have he' : (atts.filterMap attSummary).isEmpty = false := by simpa using he
     rw [hemp, he']; simp only [Bool.false_eq_true, if_false, h2]; exact ⟨h1, h3, trivial, sortSpecs_perm _ _⟩
 
+/-- **A document can be written again** (a0bb005): the files embedded by a second `generate_pdf` of the same
+document — other object numbers, e.g. through `Document.copy` — are the same files: names, descriptions
+and sizes, in the same order, and the `/EmbeddedFiles` array lists the same names. -/
+theorem second_write_same_files (cpsOf : String → List Nat) (g : List (String × String)) (n m : Nat) (atts : List Att) :
+    ((embeddedFiles cpsOf g n atts).1.map fun f => (f.filename, f.desc, f.size)) =
+      ((embeddedFiles cpsOf g m atts).1.map fun f => (f.filename, f.desc, f.size)) ∧
+    ((embeddedFiles cpsOf g n atts).2.1.map fun d => d.names.length) =
+      ((embeddedFiles cpsOf g m atts).2.1.map fun d => d.names.length) := by
+  obtain ⟨a1, _, a3, a4⟩ := attachments_written cpsOf g n atts
+  obtain ⟨b1, _, b3, b4⟩ := attachments_written cpsOf g m atts
+  refine ⟨by rw [a1, b1], ?_⟩
+  rw [a3, b3]
+  by_cases he : (atts.filterMap attSummary).isEmpty = true
+  · simp [he]
+  · simp only [he, Bool.false_eq_true, if_false, Option.map_some, List.length_map]
+    have l1 := congrArg List.length a1
+    have l2 := congrArg List.length b1
+    simp only [List.length_map] at l1 l2
+    rw [a4.length_eq, b4.length_eq, l1, l2]
+
 /-- The `/EmbeddedFiles` name array (repairs 186e86a, e909019) lists every written file once and is
 non-decreasing in the order that counts — the **bytes of the keys** as a PDF reader compares them
 (ISO 32000-1 7.9.6) — for every list of attachments and every file name.  Full strength: before e909019
